@@ -36,6 +36,9 @@ var argKinds = []struct {
 	{"function", []string{"$sum", "function($x){$x}", "function($x,$y){$x}", "$substring(?,1)", "/a/", "function(){1}", "($string ~> $uppercase)", "|$|{\"t\":1}|"}},
 	{"missing", []string{"nothing", "$nothing"}},
 	{"input", []string{"$", "a", "b.c", "*", "**"}},
+	// a null that is a member of an input array, selected by position (always
+	// evaluated on the sweep document that has one)
+	{"input-null", []string{"$[0]", "$[2][0]"}},
 }
 
 func sweepSize() int64 {
@@ -151,6 +154,7 @@ var sweepDocs = []string{
 	`[{"a":5},{"a":[6,7]},[{"a":8}]]`,
 	`{"a":1500000000000,"b":{"c":"2017-05-15T15:12:59.152Z"}}`,
 	`null`,
+	`[null,{"a":null},[null,2]]`,
 }
 
 type evalCase struct {
@@ -165,9 +169,18 @@ type evalCase struct {
 
 func c09Case(i int64, seed uint64, nSweep int64) evalCase {
 	if i < nSweep {
+		// the sweep is run once per sweep document, so every (built-in, arity,
+		// kind tuple) meets every document; the alternatives of a kind are
+		// drawn afresh in every round
+		one := nSweep / int64(len(sweepDocs))
+		base, round := i%one, i/one
 		r := prng.New(seed, 0xC09A, uint64(i))
-		p, k := sweepCase(i, r)
-		return evalCase{prog: p, doc: sweepDocs[r.Intn(len(sweepDocs))], kind: k, det: !strings.Contains(p, "$random") && !strings.Contains(p, "$shuffle") && !strings.Contains(p, "$now") && !strings.Contains(p, "$millis")}
+		p, k := sweepCase(base, r)
+		doc := sweepDocs[(base+round)%int64(len(sweepDocs))]
+		if strings.Contains(p, "$[0]") || strings.Contains(p, "$[2][0]") {
+			doc = sweepDocs[len(sweepDocs)-1] // the document with null members
+		}
+		return evalCase{prog: p, doc: doc, kind: k, det: !strings.Contains(p, "$random") && !strings.Contains(p, "$shuffle") && !strings.Contains(p, "$now") && !strings.Contains(p, "$millis")}
 	}
 	i -= nSweep
 	if i%4 == 3 {
@@ -199,7 +212,7 @@ func decodeDoc(doc string) interface{} {
 }
 
 func init() {
-	rule := "cases: (a) systematic sweep of every built-in x every arity 0..min(declared+1,3) x every tuple of 11 argument kinds (number,string,boolean,null,array,array of Go integers as the library produces them,nested array,object,function,missing,input path), exhaustive over kind tuples; " +
+	rule := "cases: (a) systematic sweep of every built-in x every arity 0..min(declared+1,3) x every tuple of 12 argument kinds (number,string,boolean,null,array,array of Go integers as the library produces them,nested array,object,function,missing,input path,null member of an input array), exhaustive over kind tuples, once per sweep document (6 documents: strings, nested arrays, array root, instants, null, null members); " +
 		"(b) PRNG-generated type-chaotic programs of depth 3..6 over every node type (paths, wildcards, predicates, sorts, groupings, transforms, lambdas with signatures, partials, chains, functions used as data, bounded recursion) on generated JSON documents with nulls, empty containers and arrays nested in arrays. " +
 		"(c) every fourth generated case probes the edges of the picture grammars and of the matcher protocol: $fromMillis/$toMillis with generated date pictures (width modifiers up to 100 and malformed, presentation strings of up to 70 digits, non-ASCII digit families) over extreme instants, $formatNumber with pictures of up to 70+70 digits, 25-digit exponents, 300 mandatory digits and malformed pictures over extreme doubles, $formatBase/$round/$number at the edges of their domains, and $split/$replace/$match/$contains called with user-written matcher functions whose match/start/end/groups/next fields are ill-typed, out of range, out of order or absent, and name steps, predicates, wildcards and compositions on function values (direct, and stored by value after $distinct/$sort/$single/$reverse) whose names coincide with the fields of the evaluator's function objects. " +
 		"non-trivial = the program compiled and Eval was actually entered (compile errors are not counted); distinct by (program text, input)"
@@ -207,7 +220,7 @@ func init() {
 		ID: "C09", Title: "Eval is total", Rule: rule,
 		Assumptions: []string{"size-like parameters ($pad width, range bounds) are kept small by the generator, as the property's quantifier prescribes", "user lambdas cannot recurse (unique binding names) except one explicit bounded-counter recursion shape", "non-termination is judged on process CPU time: 2 s in the shard, then 30 s alone"},
 		Plan: func(tier string, seed uint64) *fw.Plan {
-			nSweep := sweepSize()
+			nSweep := sweepSize() * int64(len(sweepDocs))
 			nRand := int64(54000)
 			if tier == "thorough" {
 				nRand = 4000000
@@ -225,7 +238,7 @@ func init() {
 		Rule: rule + "; plus malformed input byte strings for EvalBytes (truncations, trailing garbage, bare words, invalid UTF-8 are those that encoding/json itself rejects)",
 		Assumptions: []string{"a nested typed-nil *interface{} (the port's documented representation of JSON null, jsonata-test/README.md) marshals as null and is tolerated inside containers (counted in evidence); at the top level, and nil slices anywhere, are violations", "EvalBytes/Eval agreement is judged on deterministic programs only", "the 'ErrUndefined iff no value' clause is judged against the reference evaluator in the model-based checks (C01, C02, C12-C15), here only its consistency (nil result with ErrUndefined)"},
 		Plan: func(tier string, seed uint64) *fw.Plan {
-			nSweep := sweepSize()
+			nSweep := sweepSize() * int64(len(sweepDocs))
 			nRand := int64(54000)
 			if tier == "thorough" {
 				nRand = 2600000
